@@ -17,7 +17,9 @@ mod c11;
 mod c12;
 mod c13;
 mod c14;
+mod c15;
 mod c18;
+mod c20;
 mod mp;
 mod sut;
 
@@ -40,7 +42,9 @@ macro_rules! dispatch {
             "C12" => $f::<c12::C12>($($arg),*),
             "C13" => $f::<c13::C13>($($arg),*),
             "C14" => $f::<c14::C14>($($arg),*),
+            "C15" => $f::<c15::C15>($($arg),*),
             "C18" => $f::<c18::C18>($($arg),*),
+            "C20" => $f::<c20::C20>($($arg),*),
             other => {
                 eprintln!("unknown property id {}", other);
                 2
